@@ -1496,15 +1496,30 @@ class Engine:
 
     def ex_Tuple(self, path, frame, e):
         out = []
+        pieces = []         # z3 Seq pieces, used when a starred operand has symbolic length
+        symbolic = False
         for x in e.elts:
             if isinstance(x, pyast.Starred):
-                items = self.iter_concrete(path, self.eval(path, frame, x.value))
+                v = self.eval(path, frame, x.value)
+                items = self.iter_concrete(path, v)
                 if items is None:
-                    raise Unsupported("starred symbolic sequence in tuple display")
-                out.extend(items)
+                    symbolic = True
+                    pieces.append(self.symbolic_seq(path, v) if not isinstance(v, SymTuple) else v.seq)
+                else:
+                    out.extend(items)
+                    pieces.extend(z3.Unit(self.to_pv(i)) for i in items)
             else:
-                out.append(self.eval(path, frame, x))
-        return tuple(out)
+                v = self.eval(path, frame, x)
+                out.append(v)
+                try:
+                    pieces.append(z3.Unit(self.to_pv(v)))
+                except Unsupported:
+                    pieces.append(None)
+        if not symbolic:
+            return tuple(out)
+        if any(p is None for p in pieces):
+            raise Unsupported("tuple display mixing symbolic-length and non-term elements")
+        return SymTuple(z3.Concat(*pieces) if len(pieces) > 1 else pieces[0])
 
     def ex_List(self, path, frame, e):
         out = []
